@@ -63,11 +63,14 @@ inductive Inst where
 inductive FKind | header | headerBody | attr | slot | body | skip
   deriving DecidableEq, Repr
 
+/-- The decoders take the *mode* of the recogniser: `false` = freshly made, `true` = used before and `reset()`
+(the element recogniser of a collection from the second element on, and everything below it). The two differ
+because `VecRecognizer::reset` does not restore the initial stage of an attribute-body instance (C16-F16). -/
 structure Codec where
   enc : Inst → Val
-  dec : Val → Option Inst
-  decAttr : Val → Option Inst
-  decBody : List Attr → List Item → Option Inst
+  dec : Bool → Val → Option Inst
+  decAttr : Bool → Val → Option Inst
+  decBody : Bool → List Attr → List Item → Option Inst
   omits : Inst → Bool
   absent : Option Inst
   dflt : Option Inst
@@ -88,9 +91,9 @@ def intCodec (k : NumKind) : Codec where
   enc := fun x => match x with
     | .int n => .num k n
     | _ => .extant
-  dec := intDec k
-  decAttr := intDec k
-  decBody := simpleBody (intDec k)
+  dec := fun _ => intDec k
+  decAttr := fun _ => intDec k
+  decBody := fun _ => simpleBody (intDec k)
   omits := fun _ => false
   absent := none
   dflt := some (.int 0)
@@ -103,9 +106,9 @@ def boolCodec : Codec where
   enc := fun x => match x with
     | .bool b => .bool b
     | _ => .extant
-  dec := boolDec
-  decAttr := boolDec
-  decBody := simpleBody boolDec
+  dec := fun _ => boolDec
+  decAttr := fun _ => boolDec
+  decBody := fun _ => simpleBody (boolDec)
   omits := fun _ => false
   absent := none
   dflt := some (.bool false)
@@ -118,9 +121,9 @@ def textCodec : Codec where
   enc := fun x => match x with
     | .text s => .text s
     | _ => .extant
-  dec := textDec
-  decAttr := textDec
-  decBody := simpleBody textDec
+  dec := fun _ => textDec
+  decAttr := fun _ => textDec
+  decBody := fun _ => simpleBody (textDec)
   omits := fun _ => false
   absent := none
   dflt := some (.text "")
@@ -131,9 +134,9 @@ def unitDec : Val → Option Inst
 
 def unitCodec : Codec where
   enc := fun _ => .extant
-  dec := unitDec
-  decAttr := unitDec
-  decBody := simpleBody unitDec
+  dec := fun _ => unitDec
+  decAttr := fun _ => unitDec
+  decBody := fun _ => simpleBody (unitDec)
   omits := fun _ => false
   absent := none
   dflt := some .unit
@@ -142,35 +145,35 @@ def unitCodec : Codec where
 
 /-- `OptionRecognizer`: an `Extant` event is first offered to the inner recogniser; if that fails the result is
 `None`. -/
-def optDec (c : Codec) (v : Val) : Option Inst :=
+def optDec (r : Bool) (c : Codec) (v : Val) : Option Inst :=
   match v with
-  | .extant => match c.dec .extant with
+  | .extant => match c.dec r .extant with
     | some x => some (.some x)
     | none => some .none
-  | v => (c.dec v).map .some
+  | v => (c.dec r v).map .some
 
 /-- `FirstOf<EmptyAttrRecognizer, Mapped<T::AttrRec>>`: the empty recogniser is tried first. -/
-def optDecAttr (c : Codec) (v : Val) : Option Inst :=
+def optDecAttr (r : Bool) (c : Codec) (v : Val) : Option Inst :=
   match v with
   | .extant => some .none
-  | v => (c.decAttr v).map .some
+  | v => (c.decAttr r v).map .some
 
 /-- `FirstOf<EmptyBodyRecognizer, Mapped<T::BodyRec>>`: a body without attributes that is empty, or holds the
 single item `Extant` (how a delegated `None` is written; accepted since the repair of C16-F1), is `None`. -/
-def optDecBody (c : Codec) (attrs : List Attr) (items : List Item) : Option Inst :=
+def optDecBody (r : Bool) (c : Codec) (attrs : List Attr) (items : List Item) : Option Inst :=
   match attrs, items with
   | [], [] => some .none
   | [], [(none, .extant)] =>
-    if Generated.emptyBodyAcceptsExtant then some .none else (c.decBody attrs items).map .some
-  | _, _ => (c.decBody attrs items).map .some
+    if Generated.emptyBodyAcceptsExtant then some .none else (c.decBody r attrs items).map .some
+  | _, _ => (c.decBody r attrs items).map .some
 
 def optCodec (c : Codec) : Codec where
   enc := fun x => match x with
     | .some y => c.enc y
     | _ => .extant
-  dec := optDec c
-  decAttr := optDecAttr c
-  decBody := optDecBody c
+  dec := fun r => optDec r c
+  decAttr := fun r => optDecAttr r c
+  decBody := fun r => optDecBody r c
   omits := fun x => match x with
     | .none => true
     | _ => false
@@ -179,41 +182,55 @@ def optCodec (c : Codec) : Codec where
 
 /-! ### `Vec<T>` -/
 
-/-- The items of a `VecRecognizer` body: value items only (a `Slot` event is never accepted by an element
-recogniser). -/
-def listItems (c : Codec) : List Item → Option (List Inst)
+/-- The items of a `VecRecognizer` body read by one decoder `d`: value items only (a `Slot` event is never
+accepted by an element recogniser). -/
+def listItems (d : Val → Option Inst) : List Item → Option (List Inst)
   | [] => some []
-  | (none, v) :: rest => match c.dec v with
-    | some x => match listItems c rest with
+  | (none, v) :: rest => match d v with
+    | some x => match listItems d rest with
+      | some xs => some (x :: xs)
+      | none => none
+    | none => none
+  | (some _, _) :: _ => none
+
+/-- The first element is read by the element recogniser in the mode of the vector, every later one after
+`rec.reset()`. -/
+def listItemsFrom (r : Bool) (c : Codec) : List Item → Option (List Inst)
+  | [] => some []
+  | (none, v) :: rest => match c.dec r v with
+    | some x => match listItems (c.dec true) rest with
       | some xs => some (x :: xs)
       | none => none
     | none => none
   | (some _, _) :: _ => none
 
 /-- `VecRecognizer::new(false, ..)`: `StartBody` must be the first event, so there are no attributes. -/
-def listDec (c : Codec) : Val → Option Inst
-  | .record [] items => (listItems c items).map .list
+def listDec (r : Bool) (c : Codec) : Val → Option Inst
+  | .record [] items => (listItemsFrom r c items).map .list
   | _ => none
 
 /-- `FirstOf<VecRecognizer(is_attr_body), SimpleAttrBody<VecRecognizer>>`: the flattened reading (the whole
-attribute value is the single element) wins when both succeed. -/
-def listDecAttr (c : Codec) (v : Val) : Option Inst :=
-  match c.dec v with
+attribute value is the single element) wins when both succeed. `VecRecognizer::reset` returns to
+`BodyStage::Init` even for the attribute-body instance, so a reused recogniser has lost that alternative
+(`Generated.vecResetKeepsAttrMode = false`, finding C16-F16). -/
+def listDecAttr (r : Bool) (c : Codec) (v : Val) : Option Inst :=
+  if r && !Generated.vecResetKeepsAttrMode then listDec r c v else
+  match c.dec r v with
   | some x => some (.list [x])
-  | none => listDec c v
+  | none => listDec r c v
 
-def listDecBody (c : Codec) (attrs : List Attr) (items : List Item) : Option Inst :=
+def listDecBody (r : Bool) (c : Codec) (attrs : List Attr) (items : List Item) : Option Inst :=
   match attrs with
-  | [] => (listItems c items).map .list
+  | [] => (listItemsFrom r c items).map .list
   | _ :: _ => none
 
 def listCodec (c : Codec) : Codec where
   enc := fun x => match x with
     | .list xs => .record [] (xs.map fun y => (none, c.enc y))
     | _ => .extant
-  dec := listDec c
-  decAttr := listDecAttr c
-  decBody := listDecBody c
+  dec := fun r => listDec r c
+  decAttr := fun r => listDecAttr r c
+  decBody := fun r => listDecBody r c
   omits := fun _ => false
   absent := none
   dflt := some (.list [])
@@ -304,55 +321,55 @@ def findField (tbl : List FieldC) (name : String) : Option FieldC := tbl.find? f
 /-- Slots read by name (`LabelledStructState::BodyBetween/BodyExpectingSlot/BodyItem`,
 `HeaderState::BetweenSlots/ExpectingSlot/SlotItem`): the key must be a text naming a field of the table that has
 not been seen (`progress` bit set / `DuplicateField`), the value is read by the field's `make_recognizer()`. -/
-def readSlots (tbl : List FieldC) (acc : Acc) : List Item → Option Acc
+def readSlots (r : Bool) (tbl : List FieldC) (acc : Acc) : List Item → Option Acc
   | [] => some acc
   | (some (.text name), v) :: rest =>
     match findField tbl name with
     | some f =>
       if acc.has f.idx then none else
-      match f.c.dec v with
-      | some x => readSlots tbl (acc ++ [(f.idx, x)]) rest
+      match f.c.dec r v with
+      | some x => readSlots r tbl (acc ++ [(f.idx, x)]) rest
       | none => none
     | none => none
   | _ :: _ => none
 
 /-- Items read by position (`OrdinalStructState::BodyBetween/BodyItem`): value items only, at most one per field
 (`select_feed` answers `InconsistentState` beyond the last field). -/
-def readOrdinal : List FieldC → Acc → List Item → Option Acc
+def readOrdinal (r : Bool) : List FieldC → Acc → List Item → Option Acc
   | _, acc, [] => some acc
   | f :: fs, acc, (none, v) :: rest =>
-    match f.c.dec v with
-    | some x => readOrdinal fs (acc ++ [(f.idx, x)]) rest
+    match f.c.dec r v with
+    | some x => readOrdinal r fs (acc ++ [(f.idx, x)]) rest
     | none => none
   | _, _, _ :: _ => none
 
 /-- Attributes after the tag (`AttrBetween/AttrItem`): while the name is that of an attribute field, it must be
 new and is read by the field's `make_attr_recognizer()`. Returns what is left at the first other name (an error for
 a standard body: `UnexpectedField`; the start of the delegated part for `DelegateStructRecognizer`). -/
-def readAttrs (tbl : List FieldC) (acc : Acc) : List Attr → Option (Acc × List Attr)
+def readAttrs (r : Bool) (tbl : List FieldC) (acc : Acc) : List Attr → Option (Acc × List Attr)
   | [] => some (acc, [])
   | (name, v) :: rest =>
     match findField tbl name with
     | some f =>
       if acc.has f.idx then none else
-      match f.c.decAttr v with
-      | some x => readAttrs tbl (acc ++ [(f.idx, x)]) rest
+      match f.c.decAttr r v with
+      | some x => readAttrs r tbl (acc ++ [(f.idx, x)]) rest
       | none => none
     | none => some (acc, (name, v) :: rest)
 
 /-- `HeaderRecognizer` with `flattened = false`: the header is an attribute-less record, the `header_body` value
 (if the type has one) is its first item, then slots in any order. -/
-def headerNested (hb : Option FieldC) (hs : List FieldC) (tv : Val) : Option Acc :=
+def headerNested (r : Bool) (hb : Option FieldC) (hs : List FieldC) (tv : Val) : Option Acc :=
   match tv with
   | .record [] items =>
     match hb with
-    | none => readSlots hs [] items
+    | none => readSlots r hs [] items
     | some f =>
       match items with
       | [] => some []
       | (none, v) :: rest =>
-        match f.c.dec v with
-        | some x => readSlots hs [(f.idx, x)] rest
+        match f.c.dec r v with
+        | some x => readSlots r hs [(f.idx, x)] rest
         | none => none
       | (some _, _) :: _ => none
   | _ => none
@@ -360,24 +377,24 @@ def headerNested (hb : Option FieldC) (hs : List FieldC) (tv : Val) : Option Acc
 /-- `HeaderRecognizer` with `flattened = true` on bridge events: the whole attribute value is offered to the
 `header_body` field; without such a field the first event would have to be a slot key followed by `Slot`, which the
 bridge never produces for a single value. -/
-def headerFlat (hb : Option FieldC) (tv : Val) : Option Acc :=
+def headerFlat (r : Bool) (hb : Option FieldC) (tv : Val) : Option Acc :=
   match hb with
-  | some f => match f.c.dec tv with
+  | some f => match f.c.dec r tv with
     | some x => some [(f.idx, x)]
     | none => none
   | none => none
 
 /-- The tag attribute's value (`Header` / `NoHeader` states). `header_recognizer` is
 `FirstOf(flattened, not flattened)`: both can only complete at `EndAttribute`, the first one wins. -/
-def readHeader (fs : List FieldC) (tv : Val) : Option Acc :=
+def readHeader (r : Bool) (fs : List FieldC) (tv : Val) : Option Acc :=
   match segHb fs, segHs fs with
   | none, [] => if tv.isExtant then some [] else none
-  | some f, [] => match f.c.decAttr tv with
+  | some f, [] => match f.c.decAttr r tv with
     | some x => some [(f.idx, x)]
     | none => none
-  | hb, hs => match headerFlat hb tv with
+  | hb, hs => match headerFlat r hb tv with
     | some acc => some acc
-    | none => headerNested hb hs tv
+    | none => headerNested r hb hs tv
 
 /-- `on_done`: every field in declaration order; a skipped field is `Default::default()`, a field that was not
 read is `on_absent()` (else `MissingFields`). -/
@@ -395,38 +412,38 @@ def assemble (acc : Acc) : List FieldC → Option (List Inst)
 
 /-- The part of the struct recognisers after the tag name has been accepted
 (`Labelled/Ordinal/DelegateStructRecognizer`). -/
-def structDecAfterTag (fs : List FieldC) (tv : Val) (attrs : List Attr) (items : List Item) : Option Inst :=
-  match readHeader fs tv with
+def structDecAfterTag (r : Bool) (fs : List FieldC) (tv : Val) (attrs : List Attr) (items : List Item) : Option Inst :=
+  match readHeader r fs tv with
   | none => none
   | some acc0 =>
-    match readAttrs (segAs fs) acc0 attrs with
+    match readAttrs r (segAs fs) acc0 attrs with
     | none => none
     | some (acc1, rest) =>
       let acc2 : Option Acc :=
         match segBody fs with
-        | some f => match f.c.decBody rest items with
+        | some f => match f.c.decBody r rest items with
           | some x => some (acc1 ++ [(f.idx, x)])
           | none => none
         | none =>
           match rest with
           | _ :: _ => none
-          | [] => if bodyLabelled fs then readSlots (segSlots fs) acc1 items else readOrdinal (segSlots fs) acc1 items
+          | [] => if bodyLabelled fs then readSlots r (segSlots fs) acc1 items else readOrdinal r (segSlots fs) acc1 items
       match acc2 with
       | none => none
       | some acc => (assemble acc fs).map .struct
 
-def structDec (tag : String) (fs : List FieldC) (v : Val) : Option Inst :=
+def structDec (r : Bool) (tag : String) (fs : List FieldC) (v : Val) : Option Inst :=
   match v with
-  | .record ((t, tv) :: attrs) items => if t == tag then structDecAfterTag fs tv attrs items else none
+  | .record ((t, tv) :: attrs) items => if t == tag then structDecAfterTag r fs tv attrs items else none
   | _ => none
 
 def structCodec (tag : String) (fs : List FieldC) : Codec where
   enc := fun x => match x with
     | .struct xs => structEnc tag fs xs
     | _ => .extant
-  dec := structDec tag fs
-  decAttr := structDec tag fs          -- `SimpleAttrBody<Rec>`
-  decBody := fun attrs items => structDec tag fs (.record attrs items)   -- `BodyRec = Rec`
+  dec := fun r => structDec r tag fs
+  decAttr := fun r => structDec r tag fs          -- `SimpleAttrBody<Rec>`
+  decBody := fun r attrs items => structDec r tag fs (.record attrs items)   -- `BodyRec = Rec`
   omits := fun _ => false
   absent := none
   dflt := none
@@ -436,9 +453,9 @@ def structCodec (tag : String) (fs : List FieldC) : Codec where
 
 def newtypeField (fs : List FieldC) : Option FieldC := fs.find? fun f => !(f.kind == .skip)
 
-def newtypeDec (fs : List FieldC) (v : Val) : Option Inst :=
+def newtypeDec (r : Bool) (fs : List FieldC) (v : Val) : Option Inst :=
   match newtypeField fs with
-  | some f => match f.c.dec v with
+  | some f => match f.c.dec r v with
     | some x => (assemble [(f.idx, x)] fs).map .struct
     | none => none
   | none => none
@@ -447,14 +464,15 @@ def newtypeCodec (fs : List FieldC) : Codec where
   enc := fun x => match x, newtypeField fs with
     | .struct xs, some f => f.c.enc (fieldVal xs f)
     | _, _ => .extant
-  dec := newtypeDec fs
-  decAttr := newtypeDec fs
-  decBody := fun attrs items => newtypeDec fs (.record attrs items)
+  dec := fun r => newtypeDec r fs
+  decAttr := fun r => newtypeDec r fs
+  decBody := fun r attrs items => newtypeDec r fs (.record attrs items)
   omits := fun _ => false
   absent := none
   dflt := none
 
-/-! ### Enums (`TaggedEnumRecognizer`): the tag attribute's name selects the variant. -/
+/-! ### Enums (`TaggedEnumRecognizer`): the tag attribute's name selects the variant. The recogniser of the selected
+variant is built anew on every read (`reset` drops it), so below an enum everything is fresh again. -/
 
 def findVariant : List (String × List FieldC) → String → Nat → Option (Nat × List FieldC)
   | [], _, _ => none
@@ -464,7 +482,7 @@ def enumDec (vs : List (String × List FieldC)) (v : Val) : Option Inst :=
   match v with
   | .record ((t, tv) :: attrs) items =>
     match findVariant vs t 0 with
-    | some (k, fs) => match structDecAfterTag fs tv attrs items with
+    | some (k, fs) => match structDecAfterTag false fs tv attrs items with
       | some (.struct xs) => some (.variant k xs)
       | _ => none
     | none => none
@@ -476,9 +494,9 @@ def enumCodec (vs : List (String × List FieldC)) : Codec where
       | some (tag, fs) => structEnc tag fs xs
       | none => .extant
     | _ => .extant
-  dec := enumDec vs
-  decAttr := enumDec vs
-  decBody := fun attrs items => enumDec vs (.record attrs items)
+  dec := fun _ => enumDec vs
+  decAttr := fun _ => enumDec vs
+  decBody := fun _ attrs items => enumDec vs (.record attrs items)
   omits := fun _ => false
   absent := none
   dflt := none
@@ -530,6 +548,8 @@ end
 /-- `Form::as_value`. -/
 def toValue (t : Ty) (x : Inst) : Val := (codecOf t).enc x
 /-- `Form::try_from_value`. -/
-def fromValue (t : Ty) (v : Val) : Option Inst := (codecOf t).dec v
+def fromValue (t : Ty) (v : Val) : Option Inst := (codecOf t).dec false v
+/-- The same read by a recogniser that has been used before and `reset()`. -/
+def fromValueReused (t : Ty) (v : Val) : Option Inst := (codecOf t).dec true v
 
 end SwimVerif.Form
